@@ -149,7 +149,12 @@ func main() {
 		opts = append(opts, cuworld.TimingOpts{Scoreboard: true, Resident: 2, Delays: []int{7, 50}, NoAddrAttribution: true})
 	}
 	var scs []harness.Scenario
+	skippedRacy := 0
 	add := func(seq []string, g geo, o cuworld.TimingOpts, bound int) {
+		if !raceFree(seq, g.WGSize, g.NumWG, o.Resident) {
+			skippedRacy++ // the property is about race-free programs only
+			return
+		}
 		k := t.Program(seq)
 		if len(seq) == 0 {
 			k.Name = "empty"
@@ -241,6 +246,26 @@ func main() {
 				}
 			}
 		}
+		// more than 16 wavefronts of one CU waiting at barriers at once (the scheduler's barrier buffer holds 16):
+		// two resident work-groups of 1024 and three of 512 run barrier programs
+		manyOpts := func(res int) cuworld.TimingOpts {
+			return cuworld.TimingOpts{Resident: res, Delays: []int{7, 50}, NoAddrAttribution: true, Horizon: 40000}
+		}
+		for _, seq := range [][]string{{"barrier_lds_exchange"}, {"barrier_lds_exchange", "barrier_lds_exchange"}, {"lds_rw32", "barrier_lds_exchange"},
+			{"barrier_lds_exchange", "flat_st_dword_ld"}, {"barrier_only", "barrier_lds_exchange"}, {"flat_ld_dword_0", "barrier_lds_exchange"}, {"s_branch_skip", "barrier_lds_exchange"}} {
+			ok := true
+			for _, n := range seq {
+				ok = ok && !failed[n]
+			}
+			if ok {
+				mb := 0
+				if r.Thorough() {
+					mb = 1
+				}
+				add(seq, geo{1024, 2}, manyOpts(2), mb)
+				add(seq, geo{512, 3}, manyOpts(3), mb)
+			}
+		}
 		if r.Thorough() {
 			// triples over a reduced alphabet: one template per execution unit family
 			fam := []string{"s_add", "s_branch_skip", "v_add", "v_cmp_cndmask", "v_exec_partial", "lds_rw32", "smem_x2", "flat_ld_dword_0", "flat_st_dword_ld", "flat_two_outstanding"}
@@ -263,6 +288,7 @@ func main() {
 		r.Cov["programs_single"] = nSingles
 		r.Cov["programs_sequences"] = len(scs)
 		r.Cov["templates"] = len(t.Names)
+		r.Cov["programs_skipped_not_race_free_for_the_geometry"] = skippedRacy
 		r.Cov["templates_failing_alone_excluded_from_sequences"] = keys(failed)
 		uns := map[string]string{}
 		for k, v := range unsupported {
@@ -277,6 +303,41 @@ func main() {
 	}
 	_ = bytes.Equal
 	r.Finish()
+}
+
+// footprint is how a template addresses the shared spaces it WRITES (space:layout). Templates that are not
+// listed write no shared memory. Two templates with different layouts in the same space touch each other's
+// bytes from different lanes: harmless inside one wavefront (program order), a data race between wavefronts.
+var footprint = map[string]string{
+	"flat_st_byte": "tmp:4*gid", "flat_st_short": "tmp:4*gid", "flat_st_dword_ld": "tmp:4*gid", "flat_st_partial_exec": "tmp:4*gid",
+	"flat_st_x2":         "tmp:16*lid",
+	"flat_st_x4_cross12": "tmp:16*gid+12/16", "flat_st_x4_cross4": "tmp:16*gid+4/16", "flat_st_x2_cross": "tmp:16*gid+12/8",
+	"lds_rw32": "lds:4*lid", "barrier_lds_exchange": "lds:4*lid", "lds_rw64": "lds:8*lid", "lds_read2": "lds:8*lid", "lds_offset": "lds:4*lid+16",
+}
+
+// raceFree reports whether the program made of these templates is race-free for the geometry: with a single
+// wavefront every sequence is; with several, all templates must use one layout per space, and a layout based on
+// the local id is excluded when two work-groups are resident together (they would write the same bytes).
+func raceFree(seq []string, wgSize, numWG, resident int) bool {
+	if wgSize*numWG <= 64 {
+		return true
+	}
+	per := map[string]string{}
+	for _, n := range seq {
+		f, ok := footprint[n]
+		if !ok {
+			continue
+		}
+		space := f[:strings.Index(f, ":")]
+		if strings.HasPrefix(f, "tmp:") && strings.Contains(f, "lid") && numWG > 1 && resident > 1 {
+			return false
+		}
+		if prev, ok := per[space]; ok && prev != f {
+			return false
+		}
+		per[space] = f
+	}
+	return true
 }
 
 func toInt(v any) int64 {
